@@ -29,7 +29,9 @@ with ThreadPoolExecutor(6) as ex:
         other = [f"{p}/{r}" for p, r in fired if p != prop]
         status = "CAUGHT" if own else ("caught-by-other" if other else "MISSED")
         cj = f"/verif/seeded/{sid}/caught.json"
-        if own or other:
+        if os.environ.get("NO_WRITE"):
+            pass
+        elif own or other:
             json.dump({"property": prop if own else other[0].split("/")[0], "rules": [x.split("/")[1] for x in (own or other)], "all_fired": [f"{p}/{r}" for p, r in fired]}, open(cj, "w"), indent=1)
         elif os.path.exists(cj):
             os.remove(cj)
